@@ -644,4 +644,10 @@ def r14_12(ctx):
               f"`{short(x)}` is not sum + padding * (columns - 1) [{poly.show(got)}]: with one column it already charges a gap, so an item that exactly fits is judged too wide, column_count becomes 0 and iter_renderables(0) raises ZeroDivisionError (Columns(['a', 'b', 'c']) at width 1)")
 
 
-RULES = [r14_1, r14_2, r14_3, r14_4, r14_5, r14_6, r14_7, r14_8, r14_9, r14_10, r14_11, r14_12]
+def r14_13(ctx):
+    from .c13 import r13_8
+    from .common import borrow
+    borrow(ctx, r13_8, "R13.8", "R14.13", " [cropping to a cell width cannot raise: the crop loop of set_cell_size stops when the characters run out (callers pass negative sizes at tiny widths)]")
+
+
+RULES = [r14_1, r14_2, r14_3, r14_4, r14_5, r14_6, r14_7, r14_8, r14_9, r14_10, r14_11, r14_12, r14_13]
